@@ -673,18 +673,31 @@ def r5_inclusive_window(repo=None):
                         and mod_name == "list_drf"
                     tr = mm.enclosing(c, (ast.Try,))
                     guarded = False
+                    unknown_handler = False
                     while tr is not None and not guarded:
                         if any(c in list(ast.walk(s)) for s in tr.body):
                             for h in tr.handlers:
-                                names = [pyfront.dotted(h.type)] if h.type is not None and not isinstance(h.type, ast.Tuple) else (
-                                    [pyfront.dotted(e) for e in h.type.elts] if h.type is not None else ["*"])
-                                if "IndexError" in names or "*" in names or "Exception" in names:
+                                ht = h.type
+                                if isinstance(ht, ast.Name):
+                                    # `except _NO_GROUP_ERRORS:` - a module-level tuple of exception classes
+                                    mv_ = mm.module_assign(ht.id)
+                                    mv_ = mv_.value if isinstance(mv_, ast.Assign) else mv_
+                                    if isinstance(mv_, ast.Tuple):
+                                        ht = mv_
+                                names = [pyfront.dotted(ht)] if ht is not None and not isinstance(ht, ast.Tuple) else (
+                                    [pyfront.dotted(e) for e in ht.elts] if ht is not None else ["*"])
+                                if "IndexError" in names or "*" in names or "Exception" in names or "LookupError" in names:
                                     guarded = True
+                                elif any(n_ is not None and n_ not in ("AttributeError", "TypeError", "ValueError", "KeyError", "OSError", "IOError") for n_ in names):
+                                    unknown_handler = True
                         tr = mm.enclosing(tr, (ast.Try,))
                     site = "%s:%s %s group(%r)" % (mm.rel, c.lineno, qq, gname)
                     if everywhere or guarded or subdir_only:
                         r.ok(site, "defined in every regex that can reach it" if everywhere else (
                             "inside try/except IndexError" if guarded else "group of the sub-directory regex"))
+                    elif unknown_handler:
+                        raise AnalysisError("%s: `m.group(%r)` sits in a try whose handler catches an exception name this rule does not know: "
+                                            "not decided" % (qq, gname))
                     else:
                         r.violation(mm.rel, qq, "m.group(%r)" % gname, "group `%s` is not defined in every regex used here and the call is "
                                     "not guarded: an event/path matched by such a regex raises IndexError" % gname, line=c.lineno)
